@@ -61,6 +61,19 @@ def mk_enum(discr, idx, vals, ty=None):
     return Tree(f, None, ty)
 
 
+def sym_enum(discr_term, variants, ty=None):
+    """enum value with a symbolic discriminant and the payloads of several variants present
+    (the consumer's own `switchInt` decides; no fork here)"""
+    f = {'discr': Sc(discr_term, 'isize')}
+    for idx, vals in variants.items():
+        f[('v', idx)] = Tree(dict(enumerate(vals)), None, None)
+    return Tree(f, None, ty)
+
+
+def b2d(cond, t=0, e=1):
+    return z3.If(cond, I(t), I(e))
+
+
 def some(v, ty='Option'):
     return mk_enum(1, 1, [v], ty)
 
@@ -270,7 +283,7 @@ def m_as_nanos(ex, st, args, dty, canon):
 def m_dur_checked_sub(ex, st, args, dty, canon):
     a = dur_total_nanos(ex, st, args[0])
     b = dur_total_nanos(ex, st, args[1])
-    raise Fork([(a >= b, lambda s: some(dur_from_total_nanos(a - b))), (a < b, lambda s: none())])
+    return sym_enum(b2d(a >= b, 1, 0), {1: [dur_from_total_nanos(a - b)], 0: []}, 'Option')
 
 
 @model('Duration::checked_add')
@@ -278,7 +291,7 @@ def m_dur_checked_add(ex, st, args, dty, canon):
     a = dur_total_nanos(ex, st, args[0])
     b = dur_total_nanos(ex, st, args[1])
     fits = ex.idiv(a + b, NANOS) <= U64_MAX
-    raise Fork([(fits, lambda s: some(dur_from_total_nanos(a + b))), (z3.Not(fits), lambda s: none())])
+    return sym_enum(b2d(fits, 1, 0), {1: [dur_from_total_nanos(a + b)], 0: []}, 'Option')
 
 
 def _panic(msg):
@@ -332,13 +345,13 @@ def _time_ty(canon):
 @model('SystemTime::checked_add', 'Instant::checked_add')
 def m_time_checked_add(ex, st, args, dty, canon):
     fits, v = _time_add(ex, st, args[0], args[1], +1, _time_ty(canon))
-    raise Fork([(fits, lambda s: some(v)), (z3.Not(fits), lambda s: none())])
+    return sym_enum(b2d(fits, 1, 0), {1: [v], 0: []}, 'Option')
 
 
 @model('SystemTime::checked_sub', 'Instant::checked_sub')
 def m_time_checked_sub(ex, st, args, dty, canon):
     fits, v = _time_add(ex, st, args[0], args[1], -1, _time_ty(canon))
-    raise Fork([(fits, lambda s: some(v)), (z3.Not(fits), lambda s: none())])
+    return sym_enum(b2d(fits, 1, 0), {1: [v], 0: []}, 'Option')
 
 
 @model('<SystemTime as Add>::add', '<Instant as Add>::add')
@@ -357,8 +370,8 @@ def m_time_sub(ex, st, args, dty, canon):
 def m_st_duration_since(ex, st, args, dty, canon):
     a = time_total_nanos(ex, st, args[0])
     b = time_total_nanos(ex, st, args[1])
-    raise Fork([(a >= b, lambda s: ok(dur_from_total_nanos(a - b))),
-                (a < b, lambda s: err(Tree({0: dur_from_total_nanos(b - a)}, None, 'SystemTimeError')))])
+    return sym_enum(b2d(a >= b, 0, 1), {0: [dur_from_total_nanos(a - b)],
+                                        1: [Tree({0: dur_from_total_nanos(b - a)}, None, 'SystemTimeError')]}, 'Result')
 
 
 @model('SystemTimeError::duration')
@@ -371,7 +384,7 @@ def m_ste_duration(ex, st, args, dty, canon):
 def m_inst_cds(ex, st, args, dty, canon):
     a = time_total_nanos(ex, st, args[0])
     b = time_total_nanos(ex, st, args[1])
-    raise Fork([(a >= b, lambda s: some(dur_from_total_nanos(a - b))), (a < b, lambda s: none())])
+    return sym_enum(b2d(a >= b, 1, 0), {1: [dur_from_total_nanos(a - b)], 0: []}, 'Option')
 
 
 @model('Instant::duration_since', 'Instant::saturating_duration_since')
@@ -420,7 +433,7 @@ def m_try_from(ex, st, args, dty, canon):
     lo, hi = int_range(to)
     x = args[0].t
     fits = z3.And(x >= lo, x <= hi)
-    raise Fork([(fits, lambda s: ok(Sc(x, to))), (z3.Not(fits), lambda s: err(UNIT))])
+    return sym_enum(b2d(fits, 0, 1), {0: [Sc(x, to)], 1: [UNIT]}, 'Result')
 
 
 @pattern(r'^<(i|u)(8|16|32|64|128|size) as TryInto<(i|u)(8|16|32|64|128|size)>>::try_into$')
@@ -430,7 +443,7 @@ def m_try_into(ex, st, args, dty, canon):
     lo, hi = int_range(to)
     x = args[0].t
     fits = z3.And(x >= lo, x <= hi)
-    raise Fork([(fits, lambda s: ok(Sc(x, to))), (z3.Not(fits), lambda s: err(UNIT))])
+    return sym_enum(b2d(fits, 0, 1), {0: [Sc(x, to)], 1: [UNIT]}, 'Result')
 
 
 @pattern(r'^core::num::<impl (i|u)(8|16|32|64|128|size)>::checked_neg$')
@@ -439,7 +452,7 @@ def m_checked_neg(ex, st, args, dty, canon):
     lo, hi = int_range(ty)
     x = args[0].t
     fits = z3.And(-x >= lo, -x <= hi)
-    raise Fork([(fits, lambda s: some(Sc(-x, ty))), (z3.Not(fits), lambda s: none())])
+    return sym_enum(b2d(fits, 1, 0), {1: [Sc(-x, ty)], 0: []}, 'Option')
 
 
 @pattern(r'^core::num::<impl (i|u)(8|16|32|64|128|size)>::wrapping_neg$')
@@ -460,7 +473,7 @@ def m_int_arith(ex, st, args, dty, canon):
     if op.startswith('wrapping'):
         return Sc(ex.wrap(r, ty), ty)
     fits = z3.And(r >= lo, r <= hi)
-    raise Fork([(fits, lambda s: some(Sc(r, ty))), (z3.Not(fits), lambda s: none())])
+    return sym_enum(b2d(fits, 1, 0), {1: [Sc(r, ty)], 0: []}, 'Option')
 
 
 @model('std::cmp::min', 'min', 'cmp::min', '<u64 as Ord>::min')
@@ -491,27 +504,16 @@ def _opt_variant_cases(ex, st, v, ty):
 @pattern(r'^<(std::)?(result::)?Result<.*> as Try>::branch$')
 def m_result_branch(ex, st, args, dty, canon):
     v = args[0]
-    cases = enum_cases(ex, st, v, 2)
-
-    def f(s, i):
-        if i == 0:
-            return mk_enum(0, 0, [payload(ex, s, v, 0, 0)], 'ControlFlow')     # Continue(val)
-        return mk_enum(1, 1, [err(payload(ex, s, v, 1, 0))], 'ControlFlow')    # Break(Err(e))
-    r = fork_on(cases, f)
-    return f(st, cases[0][1])
+    d = ex.discr_of(st, v).t
+    # Continue(val) / Break(Err(e)); discriminants coincide (Ok=0 -> Continue=0, Err=1 -> Break=1)
+    return sym_enum(d, {0: [payload(ex, st, v, 0, 0)], 1: [err(payload(ex, st, v, 1, 0))]}, 'ControlFlow')
 
 
 @pattern(r'^<(std::)?(option::)?Option<.*> as Try>::branch$')
 def m_option_branch(ex, st, args, dty, canon):
     v = args[0]
-    cases = enum_cases(ex, st, v, 2)
-
-    def f(s, i):
-        if i == 1:
-            return mk_enum(0, 0, [payload(ex, s, v, 1, 0)], 'ControlFlow')
-        return mk_enum(1, 1, [none()], 'ControlFlow')
-    fork_on(cases, f)
-    return f(st, cases[0][1])
+    d = ex.discr_of(st, v).t
+    return sym_enum(z3.If(d == 1, I(0), I(1)), {0: [payload(ex, st, v, 1, 0)], 1: [none()]}, 'ControlFlow')
 
 
 @pattern(r'^<(std::)?(option::)?Option<.*> as FromResidual<.*>>::from_residual$')
@@ -522,12 +524,8 @@ def m_option_from_residual(ex, st, args, dty, canon):
 @pattern(r'^(std::)?(result::)?Result::<.*>::ok$|^Result::ok$')
 def m_result_ok(ex, st, args, dty, canon):
     v = args[0]
-    cases = enum_cases(ex, st, v, 2)
-
-    def f(s, i):
-        return some(payload(ex, s, v, 0, 0, inner_ty(dty))) if i == 0 else none()
-    fork_on(cases, f)
-    return f(st, cases[0][1])
+    d = ex.discr_of(st, v).t
+    return sym_enum(z3.If(d == 0, I(1), I(0)), {1: [payload(ex, st, v, 0, 0, inner_ty(dty))], 0: []}, 'Option')
 
 
 @pattern(r'^(std::)?(result::)?Result::<.*>::(is_ok|is_err)$')
@@ -550,19 +548,17 @@ def m_option_as_ref(ex, st, args, dty, canon):
     if not isinstance(p, Ptr):
         raise Inconclusive('Option::as_ref on non-pointer')
     v = deref(ex, st, p)
-    cases = enum_cases(ex, st, v, 2)
-
-    def f(s, i):
-        if i == 1:
-            return some(Ptr(p.cell, p.path + (('v', 1), 0)))
-        return none()
-    fork_on(cases, f)
-    return f(st, cases[0][1])
+    d = ex.discr_of(st, v).t
+    return sym_enum(d, {1: [Ptr(p.cell, p.path + (('v', 1), 0))], 0: []}, 'Option')
 
 
 @pattern(r'^(std::)?(option::)?Option::<.*>::unwrap_or$')
 def m_option_unwrap_or(ex, st, args, dty, canon):
     v = args[0]
+    pv = payload(ex, st, v, 1, 0, dty)
+    if isinstance(pv, Sc) and isinstance(args[1], Sc):
+        d = ex.discr_of(st, v).t
+        return Sc(z3.If(d == 1, pv.t, args[1].t), pv.ty)
     cases = enum_cases(ex, st, v, 2)
 
     def f(s, i):
